@@ -37,6 +37,9 @@ type Limiter struct {
 	Pos        token.Pos
 	ReturnsBad []token.Pos // returns of r.Err while the limiter is still installed
 	DrainBad   []token.Pos // Drain while not limited
+	// ShortReturns: returns taken after the length prefix was read and before
+	// the body it announces was consumed (other than for a prefix of zero)
+	ShortReturns []token.Pos
 }
 
 type Lifter struct {
